@@ -26,7 +26,7 @@ PosClass(r) ==
       d == Min2(DistTo(r.x, xa, LK), DistTo(r.x, xb, LK)) IN
   IF xa <= r.x /\ r.x <= xb THEN (IF r.x = xa \/ r.x = xb THEN "end-point" ELSE "inside")
   ELSE IF Closed /\ ((r.x = 0 /\ xb = LK) \/ (r.x = LK /\ xa = 0)) THEN "end-point"      \* the same point of the curve
-  ELSE IF 100 * d >= h THEN "far" ELSE "near"
+  ELSE IF d >= (h + 99) \div 100 THEN "far" ELSE "near"     \* 100 d >= h, without leaving 32-bit integers
 TimeClass(r) ==
   LET e == ToElem(r.tr) IN
   IF r.t <= e.t0 * K THEN "acausal" ELSE IF r.t <= e.t1 * K THEN "within" ELSE "after"
